@@ -71,7 +71,8 @@ extern int mpt_convert_string(const char *from, MPT_TYPE(type) type, void *dest)
 		while (isspace(*txt)) {
 			++txt;
 		}
-		if ((len = mpt_convert_number(txt, type, dest)) < 0) {
+		/* error or no number behind white space: nothing was stored */
+		if ((len = mpt_convert_number(txt, type, dest)) <= 0) {
 			return len;
 		}
 		txt += len;
